@@ -12,6 +12,7 @@ Abstract side: GixModel.Spec.C16 — a map `Name → Option Target` with the all
 compare-and-swap `Spec.apply`. `abs` looks at a store the way `try_find` does.
 -/
 import GixModel.Lemmas.C16Log
+import GixModel.Lemmas.C16Race
 import GixModel.Model.C16
 
 namespace GixModel.Props.C16
@@ -515,5 +516,42 @@ example :
       | .ok SX', .ok es => decide (SX'.logs = logsD (specLogsUFull (abs SX.base) es SX.logs es) es ∧
           lookup SX'.logs bHead = some [(3, 1)] ∧ lookup SX'.logs nA = some [(0, 1)])
       | _, _ => false) = true := by decide
+
+/-! ### writers contending on packed-refs.lock (small-step model GixModel.Lemmas.C16Race) -/
+
+open GixModel.C16Race
+
+/-- Any number of writers (gitoxide transactions, `git pack-refs`, …), any interleaving of their
+atomic steps TryLock / ReadPacked / Commit, any edits `f w`: at every moment packed-refs is what
+the writers that have committed so far give when run ONE AFTER THE OTHER in the order they
+committed — nothing a previous lock holder wrote is ever lost — and nobody commits twice. -/
+theorem packed_writers_linearizable (f : Nat → Packed → Packed) (file0 : Packed) (sched : List Nat) :
+    (run f (init file0) sched).file = sequential f file0 (run f (init file0) sched).log ∧
+    (run f (init file0) sched).log.Nodup :=
+  let h := inv_run f file0 sched (init file0) (inv_init f file0)
+  ⟨h.lin, h.nodup⟩
+
+/-- The snapshot of packed-refs is read under the lock: whenever a writer is about to read
+(`locked`) it holds `packed-refs.lock`, and from its read to its commit it still holds it and its
+snapshot IS the file. -/
+theorem packed_read_under_lock (f : Nat → Packed → Packed) (file0 : Packed) (sched : List Nat) (w : Nat) :
+    ((run f (init file0) sched).pc w = .locked → (run f (init file0) sched).lock = some w) ∧
+    (∀ snap, (run f (init file0) sched).pc w = .read snap →
+      (run f (init file0) sched).lock = some w ∧ snap = (run f (init file0) sched).file) :=
+  let h := inv_run f file0 sched (init file0) (inv_init f file0)
+  ⟨h.locked w, h.read w⟩
+
+-- two writers, interleaved: writer 1 tries while 0 holds the lock, gets it after 0's commit
+example : (run addOwn (init []) [0, 1, 0, 1, 0, 1, 1, 1]).file = [([0], 0), ([1], 1)] := by decide
+
+/-- The "fail early" order — snapshot first, lock afterwards — loses an update: writer 1 reads,
+writer 0 locks, reads, commits, then writer 1 gets the lock and commits from its stale snapshot.
+The result is neither 0-then-1 nor 1-then-0. (The C16 harness runs this interleaving against the
+real code: `race …` operations.) -/
+theorem legacy_snapshot_before_lock_loses_update :
+    (Legacy.run addOwn (init []) [1, 0, 0, 0, 1, 1]).file = [([1], 1)] ∧
+    (Legacy.run addOwn (init []) [1, 0, 0, 0, 1, 1]).log = [0, 1] ∧
+    sequential addOwn [] [0, 1] = [([0], 0), ([1], 1)] ∧
+    sequential addOwn [] [1, 0] = [([1], 1), ([0], 0)] := by decide
 
 end GixModel.Props.C16
